@@ -148,6 +148,16 @@ Theorem C15_permutation_is_peqvp : forall p kv kv', NoDup (map fst kv) -> Permut
 Proof. exact PrioOrder.peqvp_permutation. Qed.
 Print Assumptions C15_permutation_is_peqvp.
 
+(* flag neutrality on this class: !unsafe marks, source-level safety, user metadata and implicit flags are free in NewZ and invisible to the
+   priority image - stages with the same image build the same image, whatever else they carry *)
+Theorem C15_marks_neutral_prioritised : forall e s0 sts s0' sts',
+  Forall MergePrio.NewZ (s0 :: sts) -> Forall MergePrio.NewZ (s0' :: sts') ->
+  forallb is_dictk (s0 :: sts) = true -> forallb is_dictk (s0' :: sts') = true ->
+  map MergePrio.perase (s0 :: sts) = map MergePrio.perase (s0' :: sts') ->
+  exists n m, flatten e (s0 :: sts) = Ok n /\ flatten e (s0' :: sts') = Ok m /\ MergePrio.perase n = MergePrio.perase m.
+Proof. exact PrioLaws.same_image_same_result. Qed.
+Print Assumptions C15_marks_neutral_prioritised.
+
 (* the prioritised reference update is idempotent in its second argument, and merging a value with itself is the identity *)
 Theorem C15_prioritised_update_idempotent : forall b a, PrioPath.pwf b -> UpdateP.upd_p (UpdateP.upd_p a b) b = UpdateP.upd_p a b.
 Proof. exact PrioLaws.upd_p_idem. Qed.
